@@ -321,6 +321,10 @@ func runGob(sc *Scenario) *Outcome {
 		out.Counters["decodes_accepted"] += st.accepted
 		out.Counters["decodes_rejected"] += st.rejected
 		out.Nontrivial = len(st.keys) > 0
+		for _, k := range out.Keys {
+			out.Trace += k // order independent
+		}
+		out.Trace ^= uint64(out.Evals) << 40
 		return out
 	}
 
